@@ -354,7 +354,12 @@ func xyzToFaceSiTi(p Point) (face int, si, ti uint32, level int) {
 	// not idempotent. On the other hand, the center is computed exactly the same
 	// way p was originally computed (if it is indeed the center of a Cell);
 	// the comparison can be exact.
-	if p.Vector == faceSiTiToXYZ(face, si, ti).Normalize() {
+	// The comparison is made on the bit patterns: == would also accept a
+	// coordinate that differs from the center's in the sign of a zero (for
+	// example (-1, 0, 0) versus the face center (-1, -0, -0)), and a point that
+	// is replaced by the cell center must be exactly that center.
+	if c := faceSiTiToXYZ(face, si, ti).Normalize(); math.Float64bits(p.X) == math.Float64bits(c.X) &&
+		math.Float64bits(p.Y) == math.Float64bits(c.Y) && math.Float64bits(p.Z) == math.Float64bits(c.Z) {
 		return face, si, ti, level
 	}
 
